@@ -11,18 +11,21 @@
      OArm d        client_loop.fail_requests_for(d) / session.sleep_for(d): a timer for d is armed
      OElapsed d    that timer fired
      ODisabled     the wait (or the connection) was abandoned because the channel was disabled
-   The strategy object is Model/Retry.v. *)
+   The strategy object is Model/Retry.v. WHICH strategy method a segment calls is not written down here: it is
+   read from Gen/RetryArms.v, the translator's table of the arms of the `match` on the session result (and of the
+   failed-connect / failed-open paths) in those three files. *)
 From Coq Require Import NArith List.
-From Rodbus Require Import Model.Retry.
+From Rodbus Require Import Model.Retry Gen.RetryArms.
 Import ListNotations.
 Local Open Scope N_scope.
 
 Inductive variant := TcpClient | SerialClient | RtuServer.
 Inductive tphase := Idle | Waiting (d : N) | Up.
+Inductive lost_kind := LIo | LBadFrame | LMaxTimeouts.
 Inductive tevent :=
 | AttemptFails      (* connect refused / TLS handshake failed / port cannot be opened *)
 | AttemptOk         (* connected (after the TLS handshake) / port opened *)
-| Lost              (* the session ended with an I/O error, a bad frame or too many timeouts *)
+| Lost (k : lost_kind)  (* the session ended with an I/O error, a bad frame or too many response timeouts *)
 | Elapsed           (* the armed timer fired *)
 | Interrupt.        (* the channel was disabled (and later enabled again) *)
 Inductive wait_kind := AfterFailedConnect | AfterDisconnect.
@@ -46,24 +49,51 @@ Definition on_success (v : variant) : list tout :=
   | RtuServer => [OReset]
   end.
 
+(* ---- the generated tables, per task variant *)
+Definition op_of_call (c : retry_call) : op :=
+  match c with CallAfterDisconnect => Disc | CallAfterFailedConnect => Fail end.
+Definition end_of (k : lost_kind) : session_end :=
+  match k with LIo => EndIoError | LBadFrame => EndBadFrame | LMaxTimeouts => EndMaxTimeouts end.
+(* what the task does when its session ends with e. The RTU server's session returns a RequestError: Shutdown ends
+   the task, everything else takes the one wait path (its session is never "disabled"; that row only keeps the
+   function total) *)
+Definition session_arm (v : variant) (e : session_end) : arm_action :=
+  match v with
+  | TcpClient => tcp_session_arm e
+  | SerialClient => serial_session_arm e
+  | RtuServer => match e with EndShutdown => ArmShutdown | EndDisabled => ArmNoWait | _ => ArmWait rtu_server_lost_call end
+  end.
+Definition failed_call (v : variant) : retry_call :=
+  match v with TcpClient => tcp_failed_call | SerialClient => serial_failed_call | RtuServer => rtu_server_failed_call end.
+Definition resets_on_success (v : variant) : bool :=
+  match v with TcpClient => tcp_resets_on_connected | SerialClient => serial_resets_on_open | RtuServer => rtu_server_resets_on_open end.
+
+(* let delay = retry.<c>(); announce; arm *)
+Definition wait_with (v : variant) (t : task) (c : retry_call) (k : wait_kind) (pre : list tout) : option (task * list tout) :=
+  match step (strat t) (op_of_call c) with
+  | Some (s', Some d) => Some ({| strat := s'; phase := Waiting d |}, pre ++ announce v k d ++ [OArm d])
+  | _ => None
+  end.
+(* the arm of the match on the session result *)
+Definition session_ends (v : variant) (t : task) (e : session_end) : option (task * list tout) :=
+  match session_arm v e with
+  | ArmShutdown => None                                                   (* the task ends: not an event of this model *)
+  | ArmNoWait => Some ({| strat := strat t; phase := Idle |}, [ODisabled])
+  | ArmWait c => wait_with v t c AfterDisconnect []
+  end.
+
 Definition tstep (v : variant) (t : task) (e : tevent) : option (task * list tout) :=
   match phase t, e with
-  | Idle, AttemptFails =>
-      match step (strat t) Fail with               (* let delay = retry.after_failed_connect() *)
-      | Some (s', Some d) => Some ({| strat := s'; phase := Waiting d |}, OAttempt :: announce v AfterFailedConnect d ++ [OArm d])
-      | _ => None
-      end
+  | Idle, AttemptFails => wait_with v t (failed_call v) AfterFailedConnect [OAttempt]
   | Idle, AttemptOk =>
-      match step (strat t) Reset with
-      | Some (s', _) => Some ({| strat := s'; phase := Up |}, OAttempt :: on_success v)
-      | None => None
-      end
-  | Up, Lost =>
-      match step (strat t) Disc with               (* let delay = retry.after_disconnect() *)
-      | Some (s', Some d) => Some ({| strat := s'; phase := Waiting d |}, announce v AfterDisconnect d ++ [OArm d])
-      | _ => None
-      end
-  | Up, Interrupt => Some ({| strat := strat t; phase := Idle |}, [ODisabled])
+      if resets_on_success v then
+        match step (strat t) Reset with
+        | Some (s', _) => Some ({| strat := s'; phase := Up |}, OAttempt :: on_success v)
+        | None => None
+        end
+      else Some ({| strat := strat t; phase := Up |}, OAttempt :: filter (fun x => match x with OReset => false | _ => true end) (on_success v))
+  | Up, Lost k => session_ends v t (end_of k)
+  | Up, Interrupt => session_ends v t EndDisabled
   | Waiting d, Elapsed => Some ({| strat := strat t; phase := Idle |}, [OElapsed d])
   | Waiting d, Interrupt => Some ({| strat := strat t; phase := Idle |}, [ODisabled])
   | _, _ => Some (t, [])                             (* the event cannot occur in this phase *)
@@ -91,7 +121,7 @@ Definition knext (k : kind) (e : tevent) : kind * list op :=
   match k, e with
   | KIdle, AttemptFails => (KWaiting, [Fail])
   | KIdle, AttemptOk => (KUp, [Reset])
-  | KUp, Lost => (KWaiting, [Disc])
+  | KUp, Lost _ => (KWaiting, [Disc])
   | KUp, Interrupt => (KIdle, [])
   | KWaiting, Elapsed => (KIdle, [])
   | KWaiting, Interrupt => (KIdle, [])
